@@ -175,10 +175,6 @@ theorem copyTxn_of_res {out : History} {t : Txn}
     (h : ∀ r ∈ t.recs, ∀ bt, r.back = some bt → ResBt out r bt) : copyTxn out t = .ok t := by
   unfold copyTxn
   rw [copyRecs_of_res h]
-  simp only
-  have : ({ t with recs := t.recs } : Txn) = t := by cases t; rfl
-  rw [this]
-  simp
 
 /-- what the copier needs: a back pointer resolves in the output so far, or points to a
     transaction still to be copied -/
